@@ -94,6 +94,21 @@ func forEachInput(e Entry, thorough bool, rng *rand.Rand, fn func(class string, 
 			}
 		}
 	}
+	if e.Text {
+		// runes whose lower/upper-case form has a different UTF-8 length (Kelvin sign, Angstrom,
+		// Ohm, capital sharp s, dotted capital I, long s, ligatures) substituted byte-for-byte
+		// into valid text: length checks done before case folding go wrong on these
+		for si, s := range e.Seeds {
+			for _, ru := range []string{"\u212a", "\u212b", "\u2126", "\u1e9e", "\u0130", "\u017f", "\ufb00", "\u0149"} {
+				w := len(ru)
+				for p := 0; p+w <= len(s); p++ {
+					m := append(append(append([]byte{}, s[:p]...), ru...), s[p+w:]...)
+					fn("caserune", p, m)
+				}
+				fn("caserune", si, append(append([]byte{}, s...), ru...))
+			}
+		}
+	}
 	for si, s := range e.Seeds {
 		fn("seed", si, s)
 		// every truncation
